@@ -44,8 +44,11 @@ def decompose_gate_to_cliffords(gate, abs_tol=1e-4):
 
     # Find which Clifford parameter gate parameter corresponds to.
     clifford_values = [0, pi, pi / 2, -pi / 2]
-    clifford_parameter = next((value for value in clifford_values if
-                               isclose(gate.parameter % (2 * pi), value % (2 * pi), abs_tol=abs_tol)), None)
+    def isclose_mod_2pi(a, b):
+        diff = (a - b) % (2 * pi)
+        return isclose(diff, 0, abs_tol=abs_tol) or isclose(diff, 2 * pi, abs_tol=abs_tol)
+
+    clifford_parameter = next((value for value in clifford_values if isclose_mod_2pi(gate.parameter, value)), None)
 
     if clifford_parameter is None:
         raise ValueError(f"Error: Parameterized gate {gate} cannot be decomposed into Clifford gates")
